@@ -61,12 +61,29 @@ Record case01 := { c_mode : mode; c_rootk : N; c_base : N; c_len : N;
 
 (* size_of / align_of of the element types of the harness (x86-64, rustc >= 1.77):
    0 u8  1 u16  2 u32  3 u64  4 u128  5 [u8;0]  6 [u8;3]  7 Le32  8 Be64
-   (for get_atomic_ref 0..3 stand for AtomicU8/U16/U32/U64, same size and alignment) *)
+   9 [u8;17]  10 [u8;24]  11 [u8;31]  12 [u8;32]  13 [u16;9]  14 [u32;5]  15 [u64;4]  16 [u64;32]
+   17 [u32;2]  18 [u64;2]
+   For get_atomic_ref the id names an ATOMIC type whose VALUE type is the one of the table:
+   0..3 AtomicU8/U16/U32/U64 (same size and alignment as the value type), and two third-party
+   AtomicInteger implementors of the harness whose value type is UNDER-aligned:
+   17 Pair (8 bytes, alignment 8, value type [u32;2] of alignment 4),
+   18 Quad (16 bytes, alignment 16, value type [u64;2] of alignment 8).
+   ty_align is the alignment of the value type, aty_align the alignment of the atomic type: an
+   atomic REFERENCE must be aligned for the atomic type. *)
 Definition ty_size (t : N) : N :=
-  match t with 0 => 1 | 1 => 2 | 2 => 4 | 3 => 8 | 4 => 16 | 5 => 0 | 6 => 3 | 7 => 4 | 8 => 8 | _ => 1 end.
+  match t with 0 => 1 | 1 => 2 | 2 => 4 | 3 => 8 | 4 => 16 | 5 => 0 | 6 => 3 | 7 => 4 | 8 => 8
+             | 9 => 17 | 10 => 24 | 11 => 31 | 12 => 32 | 13 => 18 | 14 => 20 | 15 => 32 | 16 => 256
+             | 17 => 8 | 18 => 16 | _ => 1 end.
 Definition ty_align (t : N) : N :=
-  match t with 0 => 1 | 1 => 2 | 2 => 4 | 3 => 8 | 4 => 16 | 5 => 1 | 6 => 1 | 7 => 4 | 8 => 8 | _ => 1 end.
-Definition ty_known (t : N) : bool := t <=? 8.
+  match t with 0 => 1 | 1 => 2 | 2 => 4 | 3 => 8 | 4 => 16 | 5 => 1 | 6 => 1 | 7 => 4 | 8 => 8
+             | 9 => 1 | 10 => 1 | 11 => 1 | 12 => 1 | 13 => 2 | 14 => 4 | 15 => 8 | 16 => 8
+             | 17 => 4 | 18 => 8 | _ => 1 end.
+Definition aty_align (t : N) : N :=
+  if t =? 17 then 8 else if t =? 18 then 16 else ty_align t.
+Definition ty_known (t : N) : bool := t <=? 18.
+(* the alignment a reference produced by request q for type id t must have *)
+Definition ref_align (q : rq) (t : N) : N :=
+  match q with QGetAtomicRef => aty_align t | _ => ty_align t end.
 
 (* Host base address of region i of a mapped root.  The real address is chosen by the OS; it is
    page aligned, and the property depends on it only through its residue modulo the alignment
@@ -130,7 +147,7 @@ Definition fitsb (c : case01) (g : geom) (o : sop) : bool :=
   | QGetRef => a + sz <=? g_len g                                     (* one T at offset *)
   | QGetArrayRef => a + b * sz <=? g_len g                            (* n T at offset *)
   | QAlignedAsRef | QAlignedAsMut | QGetAtomicRef =>
-      (a + sz <=? g_len g) && aligned_at (addr + a) (ty_align (s_ty o))
+      (a + sz <=? g_len g) && aligned_at (addr + a) (ref_align (s_rq o) (s_ty o))
   | QOffset | QSplitLo | QSplitHi => a <=? g_len g                    (* split point in [0, len] *)
   | QRefAt => a <? g_nelem g                                          (* element index *)
   | QFromSlice => (a + b <=? g_len g) && (b =? sz) && aligned_at (addr + a) (ty_align (s_ty o))
@@ -168,7 +185,7 @@ Definition containedb (c : case01) (g : geom) (rk : kind) (o : sop) (ob : sobs) 
 
 Definition alignedb (c : case01) (rk : kind) (o : sop) (ob : sobs) : bool :=
   if kind_eqb rk KTyped || kind_eqb rk KAtomic
-  then aligned_at (root_base c (o_ridx ob) + o_off ob) (ty_align (s_ty o))
+  then aligned_at (root_base c (o_ridx ob) + o_off ob) (ref_align (s_rq o) (s_ty o))
   else true.
 
 Definition step_ok (c : case01) (g : geom) (o : sop) (ob : sobs) : bool :=
